@@ -144,6 +144,33 @@ func (h *Harness) runOnce(ch *vrt.Chooser) (outcome, sig, msg string) {
 			return outcome, "joined-player-not-on-seat", fmt.Sprintf("join %s succeeded on seat %d but the seat holds %v", tok, seat, got)
 		}
 	}
+	// join on any seat may report "none available" only when that is true: without a Leave in the
+	// harness seats only fill up, so a seat still empty and not reserved at the end was free all along
+	hasLeave := false
+	for _, ops := range h.Threads {
+		for _, op := range ops {
+			if op.Kind == "Leave" {
+				hasLeave = true
+			}
+		}
+	}
+	if !hasLeave {
+		free := -1
+		for i := 0; i < h.N; i++ {
+			if s := m.GetSeat(i); s != nil && s.Player == nil && !s.IsReserved {
+				free = i
+			}
+		}
+		if free >= 0 {
+			for ti := range results {
+				for oi, r := range results[ti] {
+					if op := h.Threads[ti][oi]; op.Kind == "Join" && op.K == -1 && !r.OK {
+						return outcome, "join-any-refused-with-free-seat", fmt.Sprintf("join t%d.%d on any seat was refused (%s) although seat %d is empty and not reserved", ti, oi, r.Err, free)
+					}
+				}
+			}
+		}
+	}
 	if got := m.GetPlayerCount(); got != initOcc+joins-leaves {
 		return outcome, "player-count", fmt.Sprintf("%d seated players, expected %d + %d joins - %d leaves", got, initOcc, joins, leaves)
 	}
